@@ -210,8 +210,15 @@ def main(argv=None):
     solver_secs = 0.0
     slowest = ("", 0.0)
     covers = {"reachable": 0, "undecided": 0, "vacuous": 0}
+    undecided_covers = []
     for ob in all_obs:
         r = ob.result
+        if ob.kind == "cover" and r is not None and getattr(r, "cover", "") == "undecided":
+            # a reachability guard the solvers did not settle: it is neither an obligation of the property nor
+            # discharged -- listed apart (coverage.covers.undecided, coverage.undecided_covers), not counted
+            covers["undecided"] += 1
+            undecided_covers.append(ob.fullname)
+            continue
         by_kind.setdefault(ob.kind, [0, 0])
         by_kind[ob.kind][0] += 1
         if r is None:
@@ -349,7 +356,7 @@ def main(argv=None):
     ev = {
         "property_id": pid, "tier": tier, "seed": seed, "level": pm.get("level", "proof"),
         "coverage": {
-            "obligations": len(all_obs) + sum(1 for p in problems if p[3] is None),
+            "obligations": len(all_obs) - len(undecided_covers) + sum(1 for p in problems if p[3] is None),
             "discharged": discharged,
             "checker_cmd": "cd /verif && python3-vt -m govc.check --property %s --tier %s" % (pid, tier),
             "trusted_base": trusted,
@@ -363,6 +370,7 @@ def main(argv=None):
             "reverified_after_failure": sorted(reverified),
             "slowest_obligation": {"name": slowest[0], "secs": slowest[1]},
             "covers": covers,
+            "undecided_covers": undecided_covers[:40],
             "ring_lemma_certificates_checked": ncerts,
             "obligation_filter": pm.get("obligation_filter", []),
             "declassified_sinks": declassified,
